@@ -16,4 +16,19 @@ MUTATIONS = [
  dict(name="timer-unreg-expired-numobjs", props=["C07"], edits=[("iv_timer.c", "\t} else {\n\t\tiv_list_del(&t->list_expired);\n\t}", "\t} else {\n\t\tiv_list_del(&t->list_expired);\n\t\tst->numobjs--;\n\t}")]),
  dict(name="timer-index-after-handler", props=["C01"], edits=[("iv_timer.c", "\t\tiv_list_del(&t->list_expired);\n\t\tt->index = -1;\n\n\t\tt->handler(t->cookie);", "\t\tiv_list_del(&t->list_expired);\n\n\t\tt->handler(t->cookie);\n\t\tt->index = -1;")]),
  dict(name="refactor-fd-unreg-order", props=["C01", "C02", "C03", "C07"], benign=True, edits=[("iv_fd.c", "\tst->numobjs--;\n\tst->numfds--;\n\n\tif (st->handled_fd == fd)\n\t\tst->handled_fd = NULL;", "\tif (st->handled_fd == fd)\n\t\tst->handled_fd = NULL;\n\n\tst->numfds--;\n\tst->numobjs--;")]),
+ dict(name="ev-kick-when-nonempty", props=["C08"], edits=[("iv_event.c", "\t\tif (iv_list_empty(&dst->events_pending))\n\t\t\tpost = 1;", "\t\tif (!iv_list_empty(&dst->events_pending))\n\t\t\tpost = 1;")]),
+ dict(name="ev-local-no-task", props=["C08"], edits=[("iv_event.c", "\t\t\tif (!iv_task_registered(&me->events_local))\n\t\t\t\tiv_task_register(&me->events_local);", "\t\t\t;")]),
+ dict(name="ev-post-check-outside-lock", props=["C08"], edits=[("iv_event.c", "\t___mutex_lock(&dst->event_list_mutex);\n\tif (iv_list_empty(&this->list)) {\n\t\tif (iv_list_empty(&dst->events_pending))\n\t\t\tpost = 1;\n\t\tiv_list_add_tail(&this->list, &dst->events_pending);\n\t}", "\tif (iv_list_empty(&dst->events_pending))\n\t\tpost = 1;\n\t___mutex_lock(&dst->event_list_mutex);\n\tif (iv_list_empty(&this->list)) {\n\t\tiv_list_add_tail(&this->list, &dst->events_pending);\n\t} else {\n\t\tpost = 0;\n\t}")]),
+ dict(name="ev-run-empty-now-stale", props=["C08"], edits=[("iv_event.c", "\t\tif (iv_list_empty(&events)) {\n\t\t\t___mutex_unlock(&st->event_list_mutex);\n\t\t\tbreak;\n\t\t}", "")]),
+ dict(name="raw-handler-before-drain", props=["C09"], edits=[("iv_event_raw_posix.c", "\ttoread = !eventfd_in_use ? sizeof(buf) : 8;\n", "\ttoread = !eventfd_in_use ? sizeof(buf) : 8;\n\tthis->handler(this->cookie);\n"), ("iv_event_raw_posix.c", "\t\treturn;\n\t}\n\n\tthis->handler(this->cookie);\n}", "\t\treturn;\n\t}\n}")]),
+ dict(name="raw-pipe-wr-blocking", props=["C09"], edits=[("iv_event_raw_posix.c", "\t\tiv_fd_set_cloexec(fd[1]);\n\t\tiv_fd_set_nonblock(fd[1]);", "\t\tiv_fd_set_cloexec(fd[1]);")]),
+ dict(name="raw-eagain-loop", props=["C09"], edits=[("iv_event_raw_posix.c", "\t} while (ret < 0 && errno == EINTR);\n}", "\t} while (ret < 0 && (errno == EINTR || errno == EAGAIN));\n}")]),
 ]
+
+# mutation lists contributed per subsystem
+import glob as _glob, importlib.util as _iu, os as _os
+for _f in sorted(_glob.glob(_os.path.join(_os.path.dirname(_os.path.abspath(__file__)), "mutations_c*.py"))):
+    _sp = _iu.spec_from_file_location(_os.path.basename(_f)[:-3], _f)
+    _m = _iu.module_from_spec(_sp)
+    _sp.loader.exec_module(_m)
+    MUTATIONS += _m.MUTATIONS
